@@ -1,6 +1,8 @@
 // Harness for C10 (HTTP exchanges end to end: one answer per request, in order, isolated; client callbacks exactly once).
-// A real nbhttp server on loopback in every IOMod x epoll mode, raw pipelining clients, net/http clients and
-// nbhttp.Client, many concurrent connections, a deterministic handler whose answer is a function of the request
+// A real nbhttp server on loopback in every IOMod x epoll mode with a plain and a TLS listener on the same engine
+// (tls.go: in-memory self-signed certificate), raw pipelining clients (plain, and crypto/tls 1.2 / 1.3 with records
+// optionally cut into random TCP writes), net/http clients (http and https) and nbhttp.Client (http and https), many
+// concurrent connections of both kinds, a deterministic handler whose answer is a function of the request
 // (connection id, request index, size, framing), sizes straddling the 64 KiB thresholds.
 //  oracle (implementation alone): per connection exactly one response per request, in request order, each with the
 //  bytes belonging to that request (no byte of another connection), connection kept open / closed as the request
@@ -155,13 +157,14 @@ type cfg struct {
 	IOMod int    `json:"iomod"`
 	Epoll string `json:"epoll"`
 	NConn int    `json:"connections"`
+	NTLS  int    `json:"tls_connections"`
 }
 
 // one raw pipelining connection; returns signature, description
-func rawConn(addr string, c int, specs []reqSpec, r *rand.Rand) (string, string) {
-	conn, err := net.DialTimeout("tcp", addr, 3*time.Second)
-	if err != nil {
-		return "infra", "dial: " + err.Error()
+func rawConn(addr string, t transport, c int, specs []reqSpec, r *rand.Rand) (string, string) {
+	conn, sig, what := t.dial(addr, r.Int63())
+	if conn == nil {
+		return sig, what
 	}
 	defer conn.Close()
 	var all []byte
@@ -244,7 +247,7 @@ func trunc(b []byte, n int) []byte {
 	return b
 }
 
-func runCell(rep *hx.Report, r *rand.Rand, iomod int, emode int, nconn int) {
+func runCell(rep *hx.Report, r *rand.Rand, iomod int, emode int, nconn, ntls int) {
 	em, os1, ename := uint32(nbio.EPOLLLT), uint32(0), "LT"
 	switch emode {
 	case 1:
@@ -252,15 +255,17 @@ func runCell(rep *hx.Report, r *rand.Rand, iomod int, emode int, nconn int) {
 	case 2:
 		em, os1, ename = nbio.EPOLLET, nbio.EPOLLONESHOT, "ET+ONESHOT"
 	}
-	addr := freePort()
-	e := nbhttp.NewEngine(nbhttp.Config{Network: "tcp", Addrs: []string{addr}, IOMod: iomod, EpollMod: em, EPOLLONESHOT: os1,
-		NPoller: 2, Handler: http.HandlerFunc(handler)})
+	addr, addrTLS := freePort(), freePort()
+	// MaxBlockingOnline: in IOModMixed the first 6 connections (plain and TLS share the counter) are served by blocking
+	// readers, the others by the pollers - both halves of the listener mux carry traffic
+	e := nbhttp.NewEngine(nbhttp.Config{Network: "tcp", Addrs: []string{addr}, AddrsTLS: []string{addrTLS}, TLSConfig: serverTLS,
+		IOMod: iomod, MaxBlockingOnline: 6, EpollMod: em, EPOLLONESHOT: os1, NPoller: 2, Handler: http.HandlerFunc(handler)})
 	if err := e.Start(); err != nil {
 		rep.Stat("start-failed")
 		return
 	}
 	defer e.Stop()
-	c := cfg{IOMod: iomod, Epoll: ename, NConn: nconn}
+	c := cfg{IOMod: iomod, Epoll: ename, NConn: nconn, NTLS: ntls}
 	// peers that disconnect while their handler is still running: the response flush of those exchanges fails
 	for k := 0; k < 1+r.Intn(3); k++ {
 		if ac, err := net.DialTimeout("tcp", addr, 3*time.Second); err == nil {
@@ -269,45 +274,75 @@ func runCell(rep *hx.Report, r *rand.Rand, iomod int, emode int, nconn int) {
 			ac.Close()
 		}
 	}
+	// the same on the TLS listener: a peer that leaves after its request, one that leaves in the middle of the
+	// handshake, and one that speaks plain HTTP to the TLS port
+	for k := 0; k < 3; k++ {
+		switch k {
+		case 0:
+			if ac, _, _ := (transport{TLS: true, Ver: "1.3"}).dial(addrTLS, 0); ac != nil {
+				ac.Write(render(950, reqSpec{I: 0, N: 100, M: "cl", Minor: 1, D: 25}))
+				time.Sleep(5 * time.Millisecond)
+				ac.Close()
+			}
+		default:
+			if ac, err := net.DialTimeout("tcp", addrTLS, 3*time.Second); err == nil {
+				if k == 1 {
+					ac.Write([]byte{0x16, 0x03, 0x01, 0x02, 0x00, 0x01, 0x00, 0x01, 0xfc, 0x03, 0x03}) // start of a ClientHello record
+				} else {
+					ac.Write(render(951, reqSpec{I: 0, N: 100, M: "cl", Minor: 1}))
+				}
+				time.Sleep(2 * time.Millisecond)
+				ac.Close()
+			}
+		}
+	}
 	time.Sleep(40 * time.Millisecond)
 	rep.Stat("aborted-exchanges")
 	type res struct {
 		sig, what string
 		specs     []reqSpec
 		c         int
+		tr        transport
 	}
-	results := make([]res, nconn)
+	// connections 0..nconn-1 are plain, 100..100+ntls-1 are TLS; both kinds run concurrently against the one engine
+	results := make([]res, nconn+ntls)
 	var wg sync.WaitGroup
-	for k := 0; k < nconn; k++ {
+	for k := 0; k < nconn+ntls; k++ {
 		specs := genConn(r)
 		seed := r.Int63()
+		id, tr, a := k, transport{}, addr
+		if k >= nconn {
+			id, tr, a = 100+k-nconn, genTransport(r), addrTLS
+		}
 		wg.Add(1)
 		go func(k int, specs []reqSpec) {
 			defer wg.Done()
-			sig, what := rawConn(addr, k, specs, rand.New(rand.NewSource(seed)))
-			results[k] = res{sig, what, specs, k}
+			sig, what := rawConn(a, tr, id, specs, rand.New(rand.NewSource(seed)))
+			results[k] = res{sig, what, specs, id, tr}
 		}(k, specs)
 	}
 	// net/http clients in parallel on the same server
-	var httpErr atomic.Value
-	tr := &http.Transport{MaxIdleConnsPerHost: 4}
-	hc := &http.Client{Transport: tr, Timeout: 15 * time.Second}
-	for k := 0; k < 4; k++ {
+	var httpErr, httpsErr atomic.Value
+	tr, trTLS := &http.Transport{MaxIdleConnsPerHost: 4}, tlsTransport()
+	for k := 0; k < 8; k++ {
 		wg.Add(1)
 		go func(k int) {
 			defer wg.Done()
+			hc, base, cid, errv, name := &http.Client{Transport: tr, Timeout: 15 * time.Second}, "http://"+addr, 1000+k, &httpErr, "net/http"
+			if k >= 4 {
+				hc, base, cid, errv, name = &http.Client{Transport: trTLS, Timeout: 15 * time.Second}, "https://"+addrTLS, 1100+k-4, &httpsErr, "net/http over TLS"
+			}
 			for i := 0; i < 4; i++ {
-				cid := 1000 + k
 				n := sizes[(k+i)%len(sizes)]
-				resp, err := hc.Get(fmt.Sprintf("http://%s/r?c=%d&i=%d&n=%d&m=%s", addr, cid, i, n, []string{"cl", "multi", "one"}[i%3]))
+				resp, err := hc.Get(fmt.Sprintf("%s/r?c=%d&i=%d&n=%d&m=%s", base, cid, i, n, []string{"cl", "multi", "one"}[i%3]))
 				if err != nil {
-					httpErr.Store(fmt.Sprintf("net/http client %d request %d: %v", k, i, err))
+					errv.Store(fmt.Sprintf("%s client %d request %d: %v", name, k%4, i, err))
 					return
 				}
 				body, err := io.ReadAll(resp.Body)
 				resp.Body.Close()
 				if err != nil || resp.Header.Get("X-Id") != fmt.Sprintf("%d-%d", cid, i) || !bytes.Equal(body, pattern(cid, i, n)) {
-					httpErr.Store(fmt.Sprintf("net/http client %d request %d: wrong response (X-Id %q, %d bytes, err %v)", k, i, resp.Header.Get("X-Id"), len(body), err))
+					errv.Store(fmt.Sprintf("%s client %d request %d: wrong response (X-Id %q, %d bytes, err %v)", name, k%4, i, resp.Header.Get("X-Id"), len(body), err))
 					return
 				}
 			}
@@ -315,6 +350,8 @@ func runCell(rep *hx.Report, r *rand.Rand, iomod int, emode int, nconn int) {
 	}
 	wg.Wait()
 	tr.CloseIdleConnections()
+	trTLS.CloseIdleConnections()
+	rep.Stat(fmt.Sprintf("tls-nethttp.iomod%d", iomod))
 	var dump []string
 	for _, x := range results {
 		if x.sig != "" && x.sig != "infra" && dump == nil {
@@ -329,20 +366,29 @@ func runCell(rep *hx.Report, r *rand.Rand, iomod int, emode int, nconn int) {
 		}
 	}
 	for _, x := range results {
-		rep.Case(fmt.Sprintf("%v/%v", c, x.specs), len(x.specs) > 1)
+		rep.Case(fmt.Sprintf("%v/%v/%v", c, x.tr, x.specs), len(x.specs) > 1)
 		rep.Ops += len(x.specs)
 		rep.Stat(fmt.Sprintf("cell.iomod%d.%s", iomod, ename))
+		sig := x.sig
+		if x.tr.TLS {
+			rep.Stat(fmt.Sprintf("tls-raw.iomod%d", iomod))
+			rep.Stat(fmt.Sprintf("tls-raw.%s.%s", ename, x.tr))
+			sig = "tls-" + sig
+		}
 		if x.sig == "infra" {
 			rep.Stat("infra." + x.what)
 			continue
 		}
 		if x.sig != "" {
-			rep.Add(hx.Finding{Kind: "oracle", Property: "C10", Signature: x.sig, What: x.what,
-				Replay: map[string]interface{}{"harness": "httpe2e", "config": c, "connection": x.c, "requests": x.specs, "server_conn_table": dump}})
+			rep.Add(hx.Finding{Kind: "oracle", Property: "C10", Signature: sig, What: x.what,
+				Replay: map[string]interface{}{"harness": "httpe2e", "config": c, "connection": x.c, "transport": x.tr, "requests": x.specs, "server_conn_table": dump}})
 		}
 	}
 	if v := httpErr.Load(); v != nil {
 		rep.Add(hx.Finding{Kind: "oracle", Property: "C10", Signature: "nethttp-client", What: v.(string), Replay: map[string]interface{}{"harness": "httpe2e", "config": c}})
+	}
+	if v := httpsErr.Load(); v != nil {
+		rep.Add(hx.Finding{Kind: "oracle", Property: "C10", Signature: "tls-nethttp-client", What: v.(string), Replay: map[string]interface{}{"harness": "httpe2e", "config": c, "transport": "net/http + crypto/tls, InsecureSkipVerify"}})
 	}
 	if len(rep.Samples) < 3 && nconn > 0 {
 		rep.Sample(map[string]interface{}{"config": c, "connection0_requests": results[0].specs})
@@ -350,9 +396,17 @@ func runCell(rep *hx.Report, r *rand.Rand, iomod int, emode int, nconn int) {
 }
 
 // nbhttp.Client: every callback exactly once, with the response of its own request
-func clientCase(rep *hx.Report, r *rand.Rand) {
+// (useTLS: https against a TLS listener of a server in the given IOMod, the client with the library's own tls config;
+// max12: the client offers TLS 1.2 at most)
+func clientCase(rep *hx.Report, r *rand.Rand, useTLS bool, iomod int, max12 bool) {
 	addr := freePort()
-	srv := nbhttp.NewEngine(nbhttp.Config{Network: "tcp", Addrs: []string{addr}, Handler: http.HandlerFunc(handler)})
+	scfg := nbhttp.Config{Network: "tcp", Addrs: []string{addr}, Handler: http.HandlerFunc(handler)}
+	scheme, cid, pre := "http", 2000, ""
+	if useTLS {
+		scfg = nbhttp.Config{Network: "tcp", AddrsTLS: []string{addr}, TLSConfig: serverTLS, IOMod: iomod, Handler: http.HandlerFunc(handler)}
+		scheme, cid, pre = "https", 2100+iomod, "tls-"
+	}
+	srv := nbhttp.NewEngine(scfg)
 	if err := srv.Start(); err != nil {
 		return
 	}
@@ -363,6 +417,9 @@ func clientCase(rep *hx.Report, r *rand.Rand) {
 	}
 	defer ce.Stop()
 	cli := &nbhttp.Client{Engine: ce, Timeout: 10 * time.Second, MaxConnsPerHost: int32(1 + r.Intn(3))}
+	if useTLS {
+		cli.TLSClientConfig = nbhttp.VerifClientTLS(max12)
+	}
 	defer func() { go cli.Close(); time.Sleep(20 * time.Millisecond) }() // bounded: a broken client may block in Close
 	n := 4 + r.Intn(12)
 	counts := make([]int32, n)
@@ -373,7 +430,7 @@ func clientCase(rep *hx.Report, r *rand.Rand) {
 	for i := 0; i < n; i++ {
 		i := i
 		size := sizes[r.Intn(len(sizes))]
-		u, _ := url.Parse(fmt.Sprintf("http://%s/r?c=%d&i=%d&n=%d&m=%s", addr, 2000, i, size, []string{"cl", "multi", "one"}[i%3]))
+		u, _ := url.Parse(fmt.Sprintf("%s://%s/r?c=%d&i=%d&n=%d&m=%s", scheme, addr, cid, i, size, []string{"cl", "multi", "one"}[i%3]))
 		req := &http.Request{Method: "GET", URL: u, Host: u.Host, Header: http.Header{}, Proto: "HTTP/1.1", ProtoMajor: 1, ProtoMinor: 1}
 		cli.Do(req, func(res *http.Response, conn net.Conn, err error) {
 			if atomic.AddInt32(&counts[i], 1) > 1 {
@@ -386,7 +443,7 @@ func clientCase(rep *hx.Report, r *rand.Rand) {
 				if res.Body != nil {
 					body, _ = io.ReadAll(res.Body)
 				}
-				if res.Header.Get("X-Id") != fmt.Sprintf("2000-%d", i) || !bytes.Equal(body, pattern(2000, i, size)) {
+				if res.Header.Get("X-Id") != fmt.Sprintf("%d-%d", cid, i) || !bytes.Equal(body, pattern(cid, i, size)) {
 					bad[i] = fmt.Sprintf("response of another request: X-Id %q, %d bytes (want %d)", res.Header.Get("X-Id"), len(body), size)
 				}
 			}
@@ -402,19 +459,91 @@ func clientCase(rep *hx.Report, r *rand.Rand) {
 	case <-time.After(15 * time.Second):
 	}
 	time.Sleep(50 * time.Millisecond)
-	rep.Case(fmt.Sprintf("client/%d/%d", n, cli.MaxConnsPerHost), true)
+	rep.Case(fmt.Sprintf("client/%s%d/%v/%d/%d", pre, iomod, max12, n, cli.MaxConnsPerHost), true)
+	rep.Ops += n
 	rep.Stat("client.requests")
 	replay := map[string]interface{}{"harness": "httpe2e", "part": "nbhttp.Client", "requests": n, "MaxConnsPerHost": cli.MaxConnsPerHost}
+	if useTLS {
+		rep.Stat(fmt.Sprintf("tls-nbclient.iomod%d", iomod))
+		rep.Stat(fmt.Sprintf("tls-nbclient.max12=%v", max12))
+		replay["part"], replay["server_iomod"], replay["client_max_tls12"] = "nbhttp.Client over TLS (https, TLSClientConfig InsecureSkipVerify)", iomod, max12
+	}
 	for i := range counts {
 		switch c := atomic.LoadInt32(&counts[i]); {
 		case c == 0:
-			rep.Add(hx.Finding{Kind: "oracle", Property: "C10", Signature: "client-callback-missing", What: fmt.Sprintf("callback of request %d was never invoked", i), Replay: replay})
+			rep.Add(hx.Finding{Kind: "oracle", Property: "C10", Signature: pre + "client-callback-missing", What: fmt.Sprintf("callback of request %d was never invoked", i), Replay: replay})
 		case c > 1:
-			rep.Add(hx.Finding{Kind: "oracle", Property: "C10", Signature: "client-callback-twice", What: fmt.Sprintf("callback of request %d invoked %d times", i, c), Replay: replay})
+			rep.Add(hx.Finding{Kind: "oracle", Property: "C10", Signature: pre + "client-callback-twice", What: fmt.Sprintf("callback of request %d invoked %d times", i, c), Replay: replay})
 		case bad[i] != "":
-			rep.Add(hx.Finding{Kind: "oracle", Property: "C10", Signature: "client-wrong-response", What: fmt.Sprintf("request %d: %s", i, bad[i]), Replay: replay})
+			rep.Add(hx.Finding{Kind: "oracle", Property: "C10", Signature: pre + "client-wrong-response", What: fmt.Sprintf("request %d: %s", i, bad[i]), Replay: replay})
 		}
 	}
+}
+
+// nbhttp.Client with its default TLS configuration (TLS 1.3 is negotiated) against a healthy nbhttp TLS server: one
+// request. Reported under its own narrow signature, so that the batches above can keep their full oracle over TLS 1.2
+// while this one says whether the client's TLS 1.3 handshake works at all.
+func clientTLS13Probe(rep *hx.Report) bool {
+	addr := freePort()
+	srv := nbhttp.NewEngine(nbhttp.Config{Network: "tcp", AddrsTLS: []string{addr}, TLSConfig: serverTLS, Handler: http.HandlerFunc(handler)})
+	if err := srv.Start(); err != nil {
+		return false
+	}
+	defer srv.Stop()
+	ce := nbhttp.NewEngine(nbhttp.Config{})
+	if err := ce.Start(); err != nil {
+		return false
+	}
+	defer ce.Stop()
+	cli := &nbhttp.Client{Engine: ce, Timeout: 3 * time.Second, MaxConnsPerHost: 1, TLSClientConfig: nbhttp.VerifClientTLS(false)}
+	defer func() { go cli.Close(); time.Sleep(20 * time.Millisecond) }()
+	u, _ := url.Parse(fmt.Sprintf("https://%s/r?c=2200&i=0&n=100&m=cl", addr))
+	req := &http.Request{Method: "GET", URL: u, Host: u.Host, Header: http.Header{}, Proto: "HTTP/1.1", ProtoMajor: 1, ProtoMinor: 1}
+	var count int32
+	ch := make(chan string, 4)
+	cli.Do(req, func(res *http.Response, conn net.Conn, err error) {
+		atomic.AddInt32(&count, 1)
+		switch {
+		case err != nil:
+			ch <- "error " + err.Error()
+		case res.Header.Get("X-Id") != "2200-0":
+			ch <- "response " + res.Header.Get("X-Id")
+		default:
+			ch <- ""
+		}
+	})
+	got := "no callback within 10s (client Timeout 3s)"
+	select {
+	case got = <-ch:
+	case <-time.After(10 * time.Second):
+	}
+	rep.Case("client/tls13-probe", true)
+	rep.Ops++
+	if got == "" {
+		rep.Stat("tls-nbclient.tls13-ok")
+		return true
+	}
+	rep.Stat("tls-nbclient.tls13-fails")
+	if strings.HasPrefix(got, "error ") {
+		// C10 allows the callback to carry an error ("the response belonging to that request or an error"): with llib
+		// v1.2.4 the blocking TLS 1.3 handshake of nbhttp.Client always fails with "bad record MAC" (the nested
+		// readRecordOrCCS on the compatibility ChangeCipherSpec reads with a stale rawInputOff; dependency defect, TLS 1.2
+		// works). That is an observation, not a violation of the property; exactly-once is still checked.
+		time.Sleep(50 * time.Millisecond)
+		if n := atomic.LoadInt32(&count); n != 1 {
+			rep.Add(hx.Finding{Kind: "oracle", Property: "C10", Signature: "tls-client-callback-twice",
+				What: fmt.Sprintf("nbhttp.Client TLS 1.3 probe: the callback of one request ran %d times (first: %s)", n, got),
+				Replay: map[string]interface{}{"harness": "httpe2e", "part": "nbhttp.Client TLS 1.3 probe", "request": "GET https://<server>" + u.RequestURI()}})
+		}
+		rep.Extra["tls13_probe"] = got
+		return false
+	}
+	rep.Add(hx.Finding{Kind: "oracle", Property: "C10", Signature: "tls-nbclient-tls13-" + map[bool]string{true: "callback-missing", false: "wrong-response"}[strings.HasPrefix(got, "no callback")],
+		What: "nbhttp.Client with the default TLSClientConfig (TLS 1.3 negotiated) against a healthy nbhttp TLS server, one GET: " + got,
+		Replay: map[string]interface{}{"harness": "httpe2e", "part": "nbhttp.Client TLS 1.3 probe", "request": "GET https://<server>" + u.RequestURI(),
+			"client": "nbhttp.Client{Timeout: 3s, MaxConnsPerHost: 1, TLSClientConfig: &tls.Config{InsecureSkipVerify: true}}",
+			"server": "nbhttp.Config{AddrsTLS, TLSConfig: one self-signed ECDSA P-256 certificate}, IOModNonBlocking; crypto/tls and net/http clients complete TLS 1.3 handshakes with the same server"}})
+	return false
 }
 
 // a client whose connection attempt fails first and succeeds later must still call every callback exactly once
@@ -471,15 +600,20 @@ func clientRedial(rep *hx.Report) {
 }
 
 // the recorded finding D16: Connection: close + response larger than the socket buffers + slow reader
-func closeTruncation(rep *hx.Report) {
+// (the same mechanism over TLS keeps the same signature)
+func closeTruncation(rep *hx.Report, t transport) {
 	addr := freePort()
-	e := nbhttp.NewEngine(nbhttp.Config{Network: "tcp", Addrs: []string{addr}, Handler: http.HandlerFunc(handler)})
+	scfg := nbhttp.Config{Network: "tcp", Addrs: []string{addr}, Handler: http.HandlerFunc(handler)}
+	if t.TLS {
+		scfg = nbhttp.Config{Network: "tcp", AddrsTLS: []string{addr}, TLSConfig: serverTLS, Handler: http.HandlerFunc(handler)}
+	}
+	e := nbhttp.NewEngine(scfg)
 	if err := e.Start(); err != nil {
 		return
 	}
 	defer e.Stop()
-	conn, err := net.DialTimeout("tcp", addr, 3*time.Second)
-	if err != nil {
+	conn, _, _ := t.dial(addr, 0)
+	if conn == nil {
 		return
 	}
 	defer conn.Close()
@@ -488,15 +622,15 @@ func closeTruncation(rep *hx.Report) {
 	time.Sleep(300 * time.Millisecond) // slow reader: the response cannot fit the socket buffers
 	conn.SetReadDeadline(time.Now().Add(20 * time.Second))
 	res, err := http.ReadResponse(bufio.NewReader(conn), &http.Request{Method: "GET"})
-	rep.Case("close-large-response", true)
+	rep.Case("close-large-response/"+t.String(), true)
 	if err != nil {
 		return
 	}
 	body, err := io.ReadAll(res.Body)
 	if len(body) != n {
 		rep.Add(hx.Finding{Kind: "oracle", Property: "C10", Signature: "close-truncates-large-response",
-			What:   fmt.Sprintf("Connection: close with a %d byte response to a slow reader: %d bytes received (%v)", n, len(body), err),
-			Replay: map[string]interface{}{"harness": "httpe2e", "part": "close-large-response", "size": n}})
+			What:   fmt.Sprintf("Connection: close with a %d byte response to a slow reader (%v): %d bytes received (%v)", n, t, len(body), err),
+			Replay: map[string]interface{}{"harness": "httpe2e", "part": "close-large-response", "size": n, "transport": t}})
 	}
 }
 
@@ -509,10 +643,12 @@ func main() {
 	only := flag.Int("cell", -1, "run only this cell (0..8 = iomod*3+epoll mode), every round")
 	flag.Parse()
 	logging.SetLogger(quiet{})
+	initTLS()
 	rep := hx.NewReport("httpe2e", *seed)
-	rep.Rule = "per matrix cell (IOMod x epoll mode): up to 24 concurrent raw connections, each pipelining 1-5 requests (GET/POST with bodies up to 70000 bytes, response sizes 0..200000 around 64 KiB, Content-Length / multi-write / single-write framing, last request keep-alive or close by version / Connection header), written in one piece or random segments, plus 4 net/http clients; nbhttp.Client batches of 4-15 requests; non-trivial = connection with more than one request; distinct = distinct (cell, request list)"
+	rep.Rule = "per matrix cell (IOMod x epoll mode; one engine with a plain and a TLS listener, IOModMixed with MaxBlockingOnline 6): up to 24 plain plus up to 24 TLS (crypto/tls 1.2 or 1.3, a third with records cut into random TCP writes) concurrent raw connections, each pipelining 1-5 requests (GET/POST with bodies up to 70000 bytes, response sizes 0..200000 around 64 KiB, Content-Length / multi-write / single-write framing, last request keep-alive or close by version / Connection header), written in one piece or random segments, plus 4 net/http and 4 net/http-over-TLS clients, after peers that abort exchanges / handshakes on both listeners; nbhttp.Client batches of 4-15 requests over http and, per server IOMod, over https (TLS 1.2; also the client's default once the TLS 1.3 probe succeeds); the D16 case over plain and TLS; non-trivial = connection with more than one request; distinct = distinct (cell, transport, request list)"
 	r := rand.New(rand.NewSource(*seed))
 	iomods := []int{nbhttp.IOModNonBlocking, nbhttp.IOModBlocking, nbhttp.IOModMixed}
+	tls13 := clientTLS13Probe(rep)
 	for round := 0; round < *n && !rep.TooMany(); round++ {
 		for ci := 0; ci < 9; ci++ {
 			if *only >= 0 {
@@ -522,11 +658,16 @@ func main() {
 			} else if !*full && ci%3 != (ci/3+round+int(*seed))%3 { // three cells per round: every IOMod, rotating epoll modes
 				continue
 			}
-			runCell(rep, r, iomods[ci/3], ci%3, []int{1, 8, 24}[r.Intn(3)])
+			runCell(rep, r, iomods[ci/3], ci%3, []int{1, 8, 24}[r.Intn(3)], []int{1, 8, 24}[r.Intn(3)])
 		}
-		clientCase(rep, r)
+		clientCase(rep, r, false, nbhttp.IOModNonBlocking, false)
+		for k, m := range iomods {
+			// TLS 1.2 always; the client's default (TLS 1.3) in turn once the probe has shown that it can connect at all
+			clientCase(rep, r, true, m, !tls13 || (k+round)%2 == 0)
+		}
 	}
 	clientRedial(rep)
-	closeTruncation(rep)
+	closeTruncation(rep, transport{})
+	closeTruncation(rep, transport{TLS: true, Ver: "1.3"})
 	rep.Write(*out)
 }
